@@ -112,6 +112,10 @@ type Service struct {
 	lastProposalSlotSet   bool
 	lastProposalSlotMutex sync.Mutex
 
+	// proposerDutiesMutex ensures that obtaining and scheduling proposer duties
+	// is not interleaved with a refresh of those duties.
+	proposerDutiesMutex sync.Mutex
+
 	// attesterDutiesMutex ensures that obtaining and scheduling attester duties
 	// is not interleaved with a refresh of those duties.
 	attesterDutiesMutex sync.Mutex
